@@ -503,7 +503,7 @@ def r7_vec(text, fn, log):
 # ------------------------------------------------------------------ R8/R9: paths and constants
 R9_CONSTS = [
     (r'f64::EPSILON', 'c_epsilon()'), (r'f64::NAN', 'c_nan()'), (r'f64::INFINITY', 'c_infinity()'), (r'f64::MAX\b', 'c_max()'), (r'f64::MIN\b(?!_)', 'c_min()'),
-    (r'f64::NEG_INFINITY', 'c_neg_infinity()'),
+    (r'f64::NEG_INFINITY', 'c_neg_infinity()'), (r'f64::MIN_POSITIVE', 'c_min_positive()'),
     (r'std::f64::consts::PI', 'c_pi()'), (r'std::f64::consts::E', 'c_e()'),
     (r'(?<![A-Za-z0-9_:])PI(?![A-Za-z0-9_])', 'c_pi()'),
     (r'(?<![A-Za-z0-9_:])FRAC_PI_2(?![A-Za-z0-9_])', 'c_frac_pi_2()'),
